@@ -18,7 +18,7 @@ TECHNIQUE = "Hypothesis over (zone id x date window x provider); the generated V
 RULE = ("Zone ids sampled from all ids known to both tz libraries plus a fixed awkward list (Cairo, Casablanca, Apia, Dublin, Lord_Howe, "
         "Caracas, Tomsk, Kathmandu, ...); windows inside 1970-2038 (first < last, biased to 1-15 years); both providers. Instants: every "
         "ground-truth transition of the source zone inside the window (found by scanning the tz library week by week and bisecting) "
-        "-1 s / 0 / +1 s, interval midpoints, a 5-day grid (6-hour grid in thorough). Oracle: vt = Timezone.from_tzid(id, tzp, first, last) is "
+        "-1 s / 0 / +1 s, interval midpoints, a 5-day grid (1-day grid in thorough). Oracle: vt = Timezone.from_tzid(id, tzp, first, last) is "
         "well-formed (TZID, >= 1 observance, each with DTSTART, TZOFFSETFROM, TZOFFSETTO, TZNAME, all onsets inside the window); at "
         "every instant (offset, abbreviation) of the source zone equals (a) the harness's onset interpreter applied to vt and (b) "
         "vt.to_tz(tzp, lookup_tzid=False); (c) from_tzinfo(converted zone, id, first, last) serialises identically to vt. "
@@ -252,7 +252,7 @@ REGIONS = {"from-tzinfo": region_all}
 
 
 @st.composite
-def cases(draw):
+def cases(draw, grid_days=5):
     zone = draw(st.one_of(st.sampled_from(all_zones()), st.sampled_from(AWKWARD)))
     y0 = draw(st.integers(1970, 2035))
     span = draw(st.sampled_from([1, 1, 2, 3, 5, 8, 15, 30]))
@@ -261,12 +261,13 @@ def cases(draw):
     last = [y1, draw(st.integers(1, 12)), draw(st.integers(1, 28))]
     if not date(*first) < date(*last):
         last = [y0 + 1, first[1], first[2]]
-    return {"provider": draw(st.sampled_from(["zoneinfo", "pytz"])), "zone": zone, "first": first, "last": last, "grid_days": 5}
+    return {"provider": draw(st.sampled_from(["zoneinfo", "pytz"])), "zone": zone, "first": first, "last": last, "grid_days": grid_days}
 
 
 def streams(tier):
     n = 36 if tier == "quick" else 400
-    return [Stream("zone-windows", "hyp", n, 16, cases, timeout_s=300)]
+    grid = 5 if tier == "quick" else 1
+    return [Stream("zone-windows", "hyp", n, 16, lambda: cases(grid), timeout_s=300)]
 
 
 LEVEL_TEXT = ("Random (zone, window, provider) triples; each generated VTIMEZONE is judged at every ground-truth transition of the source "
